@@ -6,9 +6,131 @@ for the serialisation of a real tree the depth is bounded by the number of tree 
 -/
 import MstVerif.Model.DiffDepth
 import MstVerif.Proofs.DiffTree2
+import Mathlib.Order.Nat
+
+set_option linter.unusedSectionVars false
 
 namespace Mst
 variable {K D : Type} [LinearOrder K] [DecidableEq D]
+
+/-- Unfolding of one `recurseDiffD` step, uniformly in `lastP`. -/
+theorem recurseDiffD_succ (fuel : Nat) (root : PR K D) (lastP : Option (PR K D))
+    (peer loc : List (PR K D)) (b : Builder K) :
+    recurseDiffD (fuel + 1) root lastP peer loc b =
+    match advWithin root peer with
+    | (.none, peer) => .ok (peer, loc, b, 0)
+    | (.some p, peer1) =>
+      match advWithin p loc with
+      | (.none, loc) =>
+        if locSup p loc then .ok (peer1, loc, b, 0)
+        else
+          if walkStart root lastP ≤ walkEnd p loc then
+            match b.inconsistent (walkStart root lastP) (walkEnd p loc) with
+            | .error e => .error e
+            | .ok b' => .ok (peer1, loc, b', 0)
+          else .ok (peer1, loc, b, 0)
+      | (.some l0, loc1) =>
+        if !root.supersetOf p then .error "diff.rs:272" else
+        let (l, loc2) := shrinkLocal p l0 loc1
+        match (if l.hash = p.hash then
+                 match b.consistent p.start p.end_ with
+                 | .error e => Except.error e
+                 | .ok b1 => .ok (b1, skipSubtree p peer1)
+               else
+                 match b.inconsistent p.start p.end_ with
+                 | .error e => .error e
+                 | .ok b1 => .ok (b1, peer1)) with
+        | .error e => .error e
+        | .ok (b1, peer2) =>
+          match recurseSubtreeD fuel p peer2 loc2 b1 with
+          | .error e => .error e
+          | .ok (peer3, loc3, b2, d1) =>
+            match recurseDiffD fuel root (.some p) peer3 loc3 b2 with
+            | .error e => .error e
+            | .ok (peer4, loc4, b3, d2) => .ok (peer4, loc4, b3, max d1 d2) := by
+  cases lastP <;> (rw [recurseDiffD]; simp only [locSup, walkStart, walkEnd]; rfl)
+
+/-- Forget the depth component of an instrumented result. -/
+def eraseD (r : Except String (List (PR K D) × List (PR K D) × Builder K × Nat)) :
+    Except String (List (PR K D) × List (PR K D) × Builder K) :=
+  match r with
+  | .error e => .error e
+  | .ok (p, l, b', _) => .ok (p, l, b')
+
+theorem erase_joint : ∀ fuel : Nat,
+    (∀ (root : PR K D) (lastP : Option (PR K D)) (peer loc : List (PR K D)) (b : Builder K),
+      eraseD (recurseDiffD fuel root lastP peer loc b) = recurseDiff fuel root lastP peer loc b) ∧
+    (∀ (root : PR K D) (peer loc : List (PR K D)) (b : Builder K),
+      eraseD (recurseSubtreeD fuel root peer loc b) = recurseSubtree fuel root peer loc b) := by
+  intro fuel
+  induction fuel with
+  | zero =>
+    constructor
+    · intro root lastP peer loc b
+      rw [recurseDiffD, recurseDiff]; rfl
+    · intro root peer loc b
+      rw [recurseSubtreeD, recurseSubtree]; rfl
+  | succ fuel ih =>
+    obtain ⟨ihD, ihS⟩ := ih
+    constructor
+    · intro root lastP peer loc b
+      rw [recurseDiffD_succ, recurseDiff_succ]
+      rcases advWithin root peer with ⟨_ | p, peer1⟩
+      · rfl
+      · dsimp only
+        rcases advWithin p loc with ⟨_ | l0, loc1⟩
+        · dsimp only
+          split_ifs
+          · rfl
+          · split <;> (rename_i hq; rw [hq]; rfl)
+          · rfl
+        · dsimp only
+          cases root.supersetOf p
+          · rfl
+          · simp only [Bool.not_true, Bool.false_eq_true, if_false]
+            rcases shrinkLocal p l0 loc1 with ⟨l, loc2⟩
+            dsimp only
+            have tail : ∀ (b1 : Builder K) (peer2 : List (PR K D)),
+                eraseD (match recurseSubtreeD fuel p peer2 loc2 b1 with
+                  | .error e => .error e
+                  | .ok (peer3, loc3, b2, d1) =>
+                    match recurseDiffD fuel root (.some p) peer3 loc3 b2 with
+                    | .error e => .error e
+                    | .ok (peer4, loc4, b3, d2) => .ok (peer4, loc4, b3, max d1 d2)) =
+                (match recurseSubtree fuel p peer2 loc2 b1 with
+                  | .error e => Except.error e
+                  | .ok (peer3, loc3, b2) => recurseDiff fuel root (some p) peer3 loc3 b2) := by
+              intro b1 peer2
+              rw [← ihS p peer2 loc2 b1]
+              rcases recurseSubtreeD fuel p peer2 loc2 b1 with e | ⟨peer3, loc3, b2, d1⟩
+              · rfl
+              · dsimp only [eraseD]
+                rw [← ihD root (some p) peer3 loc3 b2]
+                rcases recurseDiffD fuel root (some p) peer3 loc3 b2 with e | ⟨peer4, loc4, b3, d2⟩
+                · rfl
+                · rfl
+            by_cases hh : l.hash = p.hash
+            · simp only [if_pos hh]
+              rcases b.consistent p.start p.end_ with e | b1
+              · rfl
+              · exact tail b1 _
+            · simp only [if_neg hh]
+              rcases b.inconsistent p.start p.end_ with e | b1
+              · rfl
+              · exact tail b1 _
+    · intro root peer loc b
+      rw [recurseSubtreeD, recurseSubtree, ← ihD root none peer loc b]
+      rcases recurseDiffD fuel root none peer loc b with e | ⟨peer1, loc1, b1, d⟩
+      · rfl
+      · dsimp only [eraseD]
+        rcases drainSubtree root peer1 b1 with e | ⟨peer2, b2⟩
+        · rfl
+        · dsimp only
+          cases peer2 with
+          | nil => rfl
+          | cons v rest =>
+            dsimp only
+            split_ifs <;> rfl
 
 /-- Forgetting the depth gives exactly `recurseDiff`. -/
 theorem recurseDiffD_erase (fuel : Nat) (root : PR K D) (lastP : Option (PR K D))
@@ -16,21 +138,284 @@ theorem recurseDiffD_erase (fuel : Nat) (root : PR K D) (lastP : Option (PR K D)
     (match recurseDiffD fuel root lastP peer loc b with
      | .error e => Except.error e
      | .ok (p, l, b', _) => .ok (p, l, b')) = recurseDiff fuel root lastP peer loc b := by
-  sorry
+  exact (erase_joint fuel).1 root lastP peer loc b
+
+theorem drainSubtree_length (root : PR K D) (peer : List (PR K D)) :
+    ∀ (b : Builder K) (peer' : List (PR K D)) (b' : Builder K),
+      drainSubtree root peer b = .ok (peer', b') → peer'.length ≤ peer.length := by
+  induction peer with
+  | nil =>
+    intro b peer' b' h
+    simp only [drainSubtree] at h
+    cases h
+    exact le_refl _
+  | cons v rest ih =>
+    intro b peer' b' h
+    unfold drainSubtree at h
+    split_ifs at h with hs
+    · split at h
+      · cases h
+      · have := ih _ _ _ h
+        simp only [List.length_cons]
+        omega
+    · cases h
+      exact le_refl _
+
+/-- The depth reached is bounded by the number of peer ranges still to be consumed. -/
+theorem depth_bound : ∀ fuel : Nat,
+    (∀ (root : PR K D) (lastP : Option (PR K D)) (peer loc : List (PR K D)) (b : Builder K)
+        (peer' loc' : List (PR K D)) (b' : Builder K) (d : Nat),
+      recurseDiffD fuel root lastP peer loc b = .ok (peer', loc', b', d) →
+        peer'.length ≤ peer.length ∧ d ≤ peer.length) ∧
+    (∀ (root : PR K D) (peer loc : List (PR K D)) (b : Builder K)
+        (peer' loc' : List (PR K D)) (b' : Builder K) (d : Nat),
+      recurseSubtreeD fuel root peer loc b = .ok (peer', loc', b', d) →
+        peer'.length ≤ peer.length ∧ d ≤ peer.length + 1) := by
+  intro fuel
+  induction fuel with
+  | zero =>
+    constructor
+    · intro root lastP peer loc b peer' loc' b' d h
+      rw [recurseDiffD] at h; cases h
+    · intro root peer loc b peer' loc' b' d h
+      rw [recurseSubtreeD] at h; cases h
+  | succ fuel ih =>
+    obtain ⟨ihD, ihS⟩ := ih
+    constructor
+    · intro root lastP peer loc b peer' loc' b' d h
+      rw [recurseDiffD_succ] at h
+      rcases advWithin_cases root peer with h1 | ⟨p, peer1, rfl, hsup, h1⟩
+      · rw [h1] at h
+        cases h
+        exact ⟨le_refl _, Nat.zero_le _⟩
+      · rw [h1] at h
+        dsimp only at h
+        simp only [List.length_cons]
+        rcases advWithin_cases p loc with h2 | ⟨l0, loc1, rfl, hsup2, h2⟩
+        · rw [h2] at h
+          dsimp only at h
+          split_ifs at h
+          · cases h; omega
+          · split at h
+            · cases h
+            · cases h; omega
+          · cases h; omega
+        · rw [h2] at h
+          dsimp only at h
+          rw [hsup] at h
+          simp only [Bool.not_true, Bool.false_eq_true, if_false] at h
+          rcases hsl : shrinkLocal p l0 loc1 with ⟨l, loc2⟩
+          rw [hsl] at h
+          dsimp only at h
+          have tail : ∀ (b1 : Builder K) (peer2 : List (PR K D)), peer2.length ≤ peer1.length →
+              (match recurseSubtreeD fuel p peer2 loc2 b1 with
+                | .error e => Except.error e
+                | .ok (peer3, loc3, b2, d1) =>
+                  match recurseDiffD fuel root (.some p) peer3 loc3 b2 with
+                  | .error e => .error e
+                  | .ok (peer4, loc4, b3, d2) => .ok (peer4, loc4, b3, max d1 d2)) =
+                .ok (peer', loc', b', d) →
+              peer'.length ≤ peer1.length + 1 ∧ d ≤ peer1.length + 1 := by
+            intro b1 peer2 hlen2 ht
+            rcases hS : recurseSubtreeD fuel p peer2 loc2 b1 with e | ⟨peer3, loc3, b2, d1⟩
+            · rw [hS] at ht; cases ht
+            · rw [hS] at ht
+              dsimp only at ht
+              rcases hD : recurseDiffD fuel root (some p) peer3 loc3 b2 with e | ⟨peer4, loc4, b3, d2⟩
+              · rw [hD] at ht; cases ht
+              · rw [hD] at ht
+                cases ht
+                have hs := ihS _ _ _ _ _ _ _ _ hS
+                have hd := ihD _ _ _ _ _ _ _ _ _ hD
+                constructor
+                · omega
+                · exact max_le (by omega) (by omega)
+          by_cases hh : l.hash = p.hash
+          · rw [if_pos hh] at h
+            rcases hc : b.consistent p.start p.end_ with e | b1
+            · rw [hc] at h; cases h
+            · rw [hc] at h
+              exact tail b1 _ (skipSubtree_length p peer1) h
+          · rw [if_neg hh] at h
+            rcases hc : b.inconsistent p.start p.end_ with e | b1
+            · rw [hc] at h; cases h
+            · rw [hc] at h
+              exact tail b1 _ (le_refl _) h
+    · intro root peer loc b peer' loc' b' d h
+      rw [recurseSubtreeD] at h
+      rcases hD : recurseDiffD fuel root none peer loc b with e | ⟨peer1, loc1, b1, d0⟩
+      · rw [hD] at h; cases h
+      · rw [hD] at h
+        dsimp only at h
+        have hd := ihD _ _ _ _ _ _ _ _ _ hD
+        rcases hdr : drainSubtree root peer1 b1 with e | ⟨peer2, b2⟩
+        · rw [hdr] at h; cases h
+        · rw [hdr] at h
+          dsimp only at h
+          have hl := drainSubtree_length _ _ _ _ _ hdr
+          cases peer2 with
+          | nil =>
+            cases h
+            simp only [List.length_nil]
+            omega
+          | cons v rest =>
+            dsimp only at h
+            split_ifs at h
+            cases h
+            omega
 
 /-- `diffDepth` is defined (never errors) exactly when `diff` is: on valid lists, always. -/
 theorem diffDepth_total (loc peer : List (PR K D)) (hl : PRValid loc) (hp : PRValid peer) :
     ∃ d, diffDepth loc peer = .ok d ∧ d ≤ peer.length := by
-  sorry
+  cases peer with
+  | nil => exact ⟨0, rfl, le_refl _⟩
+  | cons root rest =>
+    obtain ⟨peer', loc', b, he, -⟩ :=
+      recurseDiff_total loc (root :: rest) root hl hp (hp root (by simp))
+    have her := (erase_joint (2 * (root :: rest).length + 2)).1 root none (root :: rest) loc
+      Builder.empty
+    rw [he] at her
+    rcases hD : recurseDiffD (2 * (root :: rest).length + 2) root none (root :: rest) loc
+      Builder.empty with e | ⟨peer1, loc1, b1, d⟩
+    · rw [hD] at her; cases her
+    · refine ⟨d, ?_, ?_⟩
+      · unfold diffDepth
+        dsimp only
+        rw [hD]
+      · exact ((depth_bound _).1 _ _ _ _ _ _ _ _ _ hD).2
 
 /-- A strictly nested chain over the naturals: ranges `[i, 2n - i]` for `i < n`, all with digest `h`. -/
 def chain (n : Nat) (h : D) : List (PR Nat D) :=
   (List.range n).map fun i => { start := i, end_ := 2 * n - i, hash := h }
 
+/-- The `k` elements of `chain n h` starting at index `i`. -/
+def chainFrom (n : Nat) (h : D) (i k : Nat) : List (PR Nat D) :=
+  (List.range' i k).map fun j => { start := j, end_ := 2 * n - j, hash := h }
+
+theorem chain_eq_chainFrom (n : Nat) (h : D) : chain n h = chainFrom n h 0 n := by
+  simp [chain, chainFrom, List.range_eq_range']
+
+theorem chainFrom_zero (n : Nat) (h : D) (i : Nat) : chainFrom n h i 0 = [] := by
+  simp [chainFrom]
+
+theorem chainFrom_succ (n : Nat) (h : D) (i k : Nat) :
+    chainFrom n h i (k + 1) =
+      ({ start := i, end_ := 2 * n - i, hash := h } : PR Nat D) :: chainFrom n h (i + 1) k := by
+  simp [chainFrom, List.range'_succ]
+
+theorem chainFrom_length (n : Nat) (h : D) (i k : Nat) : (chainFrom n h i k).length = k := by
+  simp [chainFrom]
+
+theorem shrinkLocal_chainFrom (p l0 : PR Nat D) (n : Nat) (h : D) (i k : Nat) (hp : p.start ≤ i) :
+    shrinkLocal p l0 (chainFrom n h (i + 1) k) = (l0, chainFrom n h (i + 1) k) := by
+  cases k with
+  | zero => rw [chainFrom_zero]; rfl
+  | succ k =>
+    rw [chainFrom_succ]
+    have : ¬ (i + 1 ≤ p.start) := by omega
+    simp [shrinkLocal, PR.supersetOf, this]
+
+theorem recurseDiffD_nil_peer (f : Nat) (hf : 1 ≤ f) (root : PR Nat D) (lastP : Option (PR Nat D))
+    (loc : List (PR Nat D)) (b : Builder Nat) :
+    recurseDiffD f root lastP [] loc b = .ok ([], loc, b, 0) := by
+  obtain ⟨k, rfl⟩ : ∃ k, f = k + 1 := ⟨f - 1, by omega⟩
+  rw [recurseDiffD_succ]
+  rfl
+
+/-- The walk on two chain suffixes of `k` elements nests exactly `k` deep and consumes both. -/
+theorem chain_walk (n : Nat) (h₁ h₂ : D) (hne : h₁ ≠ h₂) :
+    ∀ (k i fuel : Nat) (root : PR Nat D) (lastP : Option (PR Nat D)) (b : Builder Nat),
+      i + k ≤ n → root.start ≤ i → 2 * n - i ≤ root.end_ → 2 * k + 1 ≤ fuel →
+      ∃ b', recurseDiffD fuel root lastP (chainFrom n h₂ i k) (chainFrom n h₁ i k) b =
+        .ok ([], [], b', k) := by
+  intro k
+  induction k with
+  | zero =>
+    intro i fuel root lastP b _ _ _ hf
+    rw [chainFrom_zero, chainFrom_zero, recurseDiffD_nil_peer fuel (by omega)]
+    exact ⟨b, rfl⟩
+  | succ k ih =>
+    intro i fuel root lastP b hik hrs hre hf
+    obtain ⟨f, rfl⟩ : ∃ f, fuel = f + 2 := ⟨fuel - 2, by omega⟩
+    rw [recurseDiffD_succ, chainFrom_succ, chainFrom_succ]
+    generalize hpdef : ({ start := i, end_ := 2 * n - i, hash := h₂ } : PR Nat D) = p
+    generalize hldef : ({ start := i, end_ := 2 * n - i, hash := h₁ } : PR Nat D) = l0
+    have hps : p.start = i := by rw [← hpdef]
+    have hpe : p.end_ = 2 * n - i := by rw [← hpdef]
+    have hph : p.hash = h₂ := by rw [← hpdef]
+    have hls : l0.start = i := by rw [← hldef]
+    have hle : l0.end_ = 2 * n - i := by rw [← hldef]
+    have hlh : l0.hash = h₁ := by rw [← hldef]
+    have hsup : root.supersetOf p = true := by
+      simp only [PR.supersetOf, Bool.and_eq_true, decide_eq_true_eq]
+      omega
+    have h1 : advWithin root (p :: chainFrom n h₂ (i + 1) k) =
+        (some p, chainFrom n h₂ (i + 1) k) := by
+      simp [advWithin, hsup]
+    have hsup2 : p.supersetOf l0 = true := by
+      simp only [PR.supersetOf, Bool.and_eq_true, decide_eq_true_eq]
+      omega
+    have h2 : advWithin p (l0 :: chainFrom n h₁ (i + 1) k) =
+        (some l0, chainFrom n h₁ (i + 1) k) := by
+      simp [advWithin, hsup2]
+    have h4 := shrinkLocal_chainFrom p l0 n h₁ i k (by omega)
+    have h5 : ¬ l0.hash = p.hash := by rw [hlh, hph]; exact hne
+    have h6 : b.inconsistent p.start p.end_ =
+        .ok { b with bad := b.bad ++ [(p.start, p.end_)] } := by
+      have : p.start ≤ p.end_ := by omega
+      simp [Builder.inconsistent, this]
+    obtain ⟨b1, hb1⟩ := ih (i + 1) f p none { b with bad := b.bad ++ [(p.start, p.end_)] }
+      (by omega) (by omega) (by omega) (by omega)
+    have hS : recurseSubtreeD (f + 1) p (chainFrom n h₂ (i + 1) k) (chainFrom n h₁ (i + 1) k)
+        { b with bad := b.bad ++ [(p.start, p.end_)] } = .ok ([], [], b1, k + 1) := by
+      rw [recurseSubtreeD, hb1]
+      rfl
+    have hT : recurseDiffD (f + 1) root (some p) [] [] b1 = .ok ([], [], b1, 0) :=
+      recurseDiffD_nil_peer (f + 1) (by omega) root (some p) [] b1
+    rw [h1]
+    dsimp only
+    rw [h2]
+    dsimp only
+    rw [hsup]
+    simp only [Bool.not_true, Bool.false_eq_true, if_false]
+    rw [h4]
+    dsimp only
+    rw [if_neg h5, h6]
+    dsimp only
+    rw [hS]
+    dsimp only
+    rw [hT]
+    exact ⟨b1, by simp⟩
+
+theorem diffDepth_cons (loc peer : List (PR Nat D)) (root : PR Nat D) (rest : List (PR Nat D))
+    (h : peer = root :: rest) :
+    diffDepth loc peer =
+      match recurseDiffD (2 * peer.length + 2) root .none peer loc Builder.empty with
+      | .error e => .error e
+      | .ok (_, _, _, d) => .ok d := by
+  subst h
+  unfold diffDepth
+  dsimp only
+  generalize recurseDiffD (2 * (root :: rest).length + 2) root none (root :: rest) loc
+    Builder.empty = r
+  rcases r with e | ⟨_, _, _, d⟩ <;> rfl
+
 /-- Two such chains with different digests drive the walk to nesting depth `n`: the recursion
 depth (hence the stack) needed by `diff` grows linearly with the nesting depth of untrusted input. -/
 theorem diffDepth_chain (n : Nat) (h₁ h₂ : D) (hne : h₁ ≠ h₂) :
     diffDepth (chain n h₁) (chain n h₂) = .ok n := by
-  sorry
+  cases n with
+  | zero => rfl
+  | succ m =>
+    rw [chain_eq_chainFrom, chain_eq_chainFrom]
+    obtain ⟨b', hb'⟩ := chain_walk (m + 1) h₁ h₂ hne (m + 1) 0
+      (2 * (chainFrom (m + 1) h₂ 0 (m + 1)).length + 2)
+      { start := 0, end_ := 2 * (m + 1) - 0, hash := h₂ } none Builder.empty
+      (by omega) (le_refl _) (le_refl _) (by rw [chainFrom_length]; omega)
+    rw [diffDepth_cons _ _ _ _ (chainFrom_succ (m + 1) h₂ 0 m), hb']
 
 end Mst
+
+#print axioms Mst.recurseDiffD_erase
+#print axioms Mst.diffDepth_total
+#print axioms Mst.diffDepth_chain
